@@ -126,10 +126,10 @@ def with_inject(lines, inj):
     return out
 
 
-def model_walk(events, ops):
-    """returns (snapshots per user as of its last publish, final model, list of rule breaches seen on the way)"""
-    model = {}
-    snaps = {}
+def model_walk(events, ops, init=None, init_snaps=None):
+    """returns (snapshots per user as of its last publish, final model, number of publishes, clean shutdown seen)"""
+    model = {u: dict(v) for u, v in (init or {}).items()}
+    snaps = {k: {u: dict(v) for u, v in s.items()} for k, s in (init_snaps or {}).items()}
     published = 0
     down = False
     for e in events:
@@ -260,6 +260,8 @@ def run_variant(root, lines, ops, t_end, inj, part, meta, tag):
                     fail("shutdown-misses-change", "user %d: after a clean shutdown the last checkpoint holds %r, acknowledged state is %r"
                          % (user, sorted((u, v["cmd"]) for u, v in snap.items())[:4], sorted((u, v["cmd"]) for u, v in mine.items())[:4]))
         nfiles, narmed = inspect(root, spool, snaps, t_end + 5, fail, tag.split(":")[0])
+        if crashed and not fails and meta.get("second_life") is not None:
+            second_life(root, spool, snaps, t_end + 10, meta["second_life"], fail, part)
         part.count("spool_files_inspected", nfiles)
         part.count("tasks_rescheduled_after_restart", narmed)
         part.count("checkpoints_published", published)
@@ -272,8 +274,56 @@ def run_variant(root, lines, ops, t_end, inj, part, meta, tag):
         shutil.rmtree(spool, ignore_errors=True)
 
 
+def second_life(root, spool, snaps, t0, plan, fail, part):
+    """the daemon is started again on what the crash left behind, takes a few more acknowledged requests and is shut down
+    properly; a third daemon must then find exactly the acknowledged state"""
+    init = {}
+    for user, snap in snaps.items():
+        for u, v in snap.items():
+            if v["rec"] or v["dt"] > t0:
+                init[u] = dict(v)
+    lines = ["spool " + spool, "now %.6f" % t0, "start", "lives 0.01"]
+    ops = []
+    ver = 900000
+    users = sorted(plan["users"])
+    for i, (user, what) in enumerate(plan["ops"]):
+        mine = sorted(u for u, v in init.items() if v["owner"] == user)
+        if what == "cancel" and mine:
+            uid = mine[i % len(mine)]
+            lines.append("req %d %s" % (user, sched.hexs(vcal(["BEGIN:VEVENT\nUID:%s\nSTATUS:CANCELLED\nEND:VEVENT" % uid], "CANCEL"))))
+            ops.append({"k": "cancel", "peer": user, "uids": [uid]})
+        else:
+            ver += 1
+            uid = "again%d.%d@verif" % (user, i)
+            dt = int(t0) + 3600
+            lines.append("req %d %s" % (user, sched.hexs(vcal([vevent(uid, ver, dt, True, None)]))))
+            ops.append({"k": "add", "peer": user, "items": [{"uid": uid, "ver": ver, "rec": True, "dt": dt, "maxsim": None}]})
+    t1 = t0 + plan["wait"]
+    lines += ["run %.6f" % t1, "shutdown"]
+    ev, out, err, rc = sched.run_script(root, "\n".join(lines) + "\n", iter_log=False)
+    part.evaluations += 1
+    part.count("second_lives")
+    if ev is None or rc != 0 or not any(e[0] == "END" for e in ev):
+        head, frames = sched.san_summary(err)
+        fail("second-life-crash/" + (">".join(frames[:2]) or "rc%s" % rc), "the daemon restarted after the crash dies: %s" % (head or err[-200:]))
+        return
+    snaps2, model2, published, down = model_walk(ev, ops, init=init, init_snaps={k: {u: v for u, v in s.items() if u in init} for k, s in snaps.items()})
+    for user in sorted(set(v["owner"] for v in model2.values()) | set(snaps2)):
+        # (single-occurrence tasks that came due meanwhile have run and retired on both sides)
+        mine = {u: v for u, v in model2.items() if v["owner"] == user and (v["rec"] or v["dt"] > t1)}
+        snap = {u: v for u, v in snaps2.get(user, {}).items() if v["rec"] or v["dt"] > t1}
+        if mine != snap:
+            fail("second-life/shutdown-misses-change", "user %d: restarted after a crash and shut down cleanly, the checkpoint holds %r, acknowledged state is %r"
+                 % (user, sorted((u, v["cmd"]) for u, v in snap.items())[:4], sorted((u, v["cmd"]) for u, v in mine.items())[:4]))
+    inspect(root, spool, snaps2, t1 + 5, fail, "second-life")
+
+
 def run_history(root, part, rng, tier):
     lines, ops, t_end, meta = build_history(rng)
+    # what happens after a crash (used by the crash variants of this history)
+    us = sorted(set(op["peer"] for op in ops)) or [1000]
+    meta["second_life"] = {"users": us, "wait": rng.choice([5.0, 61.0, 130.0]),
+                           "ops": [(rng.choice(us), rng.choice(["add", "cancel", "add"])) for _ in range(rng.randint(1, 5))]}
     r = run_variant(root, lines, ops, t_end, None, part, meta, "baseline")
     if r is None or r[0] is None:
         return
